@@ -23,7 +23,7 @@ import langtrace
 import nv
 
 I, L = g.ident, g.lit
-TRACK = ["xx", "yy", "zz", "dd", "vv", "rr", "ff", "gg"]
+TRACK = ["xx", "yy", "zz", "dd", "vv", "rr", "ff", "gg", "si", "sj", "st", "su"]
 
 
 def T(x, *ix):
@@ -41,7 +41,27 @@ def vocabulary():
     add("alias", g.decl("yy", I("xx")), ["yy"])
     add("decl-dict", g.decl("dd", g.dct([(L(1), g.lst([L(0)]))], default=g.lst([]))), ["dd"])
     add("decl-vec", g.decl("vv", g.vec([L(1), L(2)])), ["vv"])
+    add("decl-struct", g.struct("Foo", ["fa", "fb"]), [])
+    add("decl-inst", g.decl("si", g.call(I("Foo"), [L(1), g.lst([L(0), L(1)])])), ["si"])
+    add("decl-str", g.decl("st", L("abc")), ["st"])
     # explored
+    add("inst-alias", g.decl("sj", I("si")), ["sj"])
+    add("inst-field-assign", g.asg(T("si", I("fa")), L(5)), ["si"])
+    add("inst-field-op", g.opasg(T("si", I("fb")), "append", L(3)), ["si"])
+    add("inst-field-inner", g.asg(T("si", I("fb"), L(0)), L(9)), ["si"])
+    add("inst-field-pop", g.pop(T("si", I("fb"))), ["si"])
+    add("inst-swap-fields", g.swap(T("si", I("fa")), T("si", I("fb"))), ["si"])
+    add("inst-consume-field", g.consume(T("si", I("fa"))), ["si"])
+    add("inst-into-list", g.asg(T("xx", L(0)), I("si")), ["xx"])
+    add("inst-update-expr", g.asg(T("yy"), g.upd(I("si"), I("fa"), L(3))), ["yy"])
+    add("inst-wrong-index", g.asg(T("si", L(0)), L(1)), ["si"])
+    add("str-alias", g.decl("su", I("st")), ["su"])
+    add("str-byte-assign", g.asg(T("st", L(0)), L("x")), ["st"])
+    add("str-byte-assign-neg", g.asg(T("st", L(-1)), L("z")), ["st"])
+    add("str-byte-op", g.try_(g.opasg(T("st", L(1)), "append", L("y")), "ee", L(0)), ["st"])
+    add("str-bad-assign", g.asg(T("st", L(7)), L("y")), ["st"])
+    add("str-two-bytes", g.asg(T("st", L(0)), L("xy")), ["st"])
+    add("str-into-inst", g.asg(T("si", I("fa")), I("st")), ["si"])
     add("nest-alias", g.decl("zz", g.lst([I("yy"), I("yy")])), ["zz"])
     add("elem-alias", g.asg(T("yy"), g.idx(I("xx"), L(0))), ["yy"])
     add("reassign", g.asg(T("xx"), I("yy")), ["xx"])
@@ -84,7 +104,7 @@ def vocabulary():
     add("call-len", g.call(I("len"), [I("xx")]), [])
     add("call-concat", g.binop("++", I("xx"), I("yy")), [])
     add("call-append", g.binop("append", I("xx"), I("yy")), [])
-    return V, 4
+    return V, 7
 
 
 # ------------------------------------------------------------------ random histories
@@ -93,8 +113,12 @@ NAMES = ["va", "vb", "vc", "vd", "ve", "vf"]
 
 def rand_value(rng, depth=0):
     r = rng.random()
-    if depth >= 2 or r < 0.3:
+    if depth >= 2 or r < 0.25:
         return L(rng.randint(0, 9))
+    if r < 0.31:
+        return L(rng.choice(["abc", "q", "hello"]))
+    if r < 0.40:
+        return g.call(I("Foo"), [rand_value(rng, depth + 1), rand_value(rng, depth + 1)])
     if r < 0.7:
         return g.lst([rand_value(rng, depth + 1) for _ in range(rng.randint(1, 3))])
     if r < 0.85:
@@ -106,6 +130,8 @@ def rand_value(rng, depth=0):
 
 
 def rand_ix(rng):
+    if rng.random() < 0.12:
+        return I(rng.choice(["fa", "fb"]))
     return L(rng.choice([0, 0, 1, 1, 2, -1]))
 
 
@@ -115,7 +141,7 @@ def rand_path(rng, maxlen=2):
 
 def rand_history(rng, n):
     declared = []
-    stmts = []
+    stmts = [g.struct("Foo", ["fa", "fb"])]
     funcs = []
 
     def var():
@@ -140,7 +166,7 @@ def rand_history(rng, n):
             stmts.append(g.asg(T(x), rng.choice([I(var()), rand_value(rng), g.lst([I(var()), L(1)]),
                                                  g.idx(I(var()), rand_ix(rng))])))
         elif r < 0.36:
-            stmts.append(g.asg(T(x, *rand_path(rng)), rng.choice([L(rng.randint(0, 9)), I(var()), rand_value(rng, 1)])))
+            stmts.append(g.asg(T(x, *rand_path(rng)), rng.choice([L(rng.randint(0, 9)), I(var()), rand_value(rng, 1), L("z")])))
         elif r < 0.50:
             op = rng.choice(["append", "append", "++", "+", ".+"])
             rhs = {"append": rng.choice([L(rng.randint(0, 9)), I(var())]), "++": rng.choice([I(var()), g.lst([L(1)])]),
